@@ -37,10 +37,11 @@ def load_known(prop):
     return [e for e in doc.get("findings", []) if e.get("property") == prop and e.get("status") == "known"]
 
 
-def match_known(known, sig):
+def match_known(known, sig, what=""):
+    """a violation is a known finding only if its input signature AND its failure message match the entry"""
     import re
     for e in known:
-        if re.fullmatch(e["sig_pattern"], sig):
+        if re.fullmatch(e["sig_pattern"], sig) and re.search(e.get("what_pattern", ""), what):
             return e
     return None
 
@@ -180,7 +181,7 @@ def run(prop, tier, seed, only_replay=None):
         if v.get("machinery"):
             machinery.append(v["what"])
             continue
-        e = match_known(known, v.get("sig", ""))
+        e = match_known(known, v.get("sig", ""), v.get("what", ""))
         if e is not None:
             known_hits.setdefault(e["id"], [e, 0])[1] += 1
         else:
@@ -195,6 +196,10 @@ def run(prop, tier, seed, only_replay=None):
         for fn in os.listdir(rdir):
             if fn.startswith("violation_%s_" % tier):
                 os.remove(os.path.join(rdir, fn))
+    if bysig and not only_replay:
+        with open(os.path.join(rdir, "summary_%s.json" % tier), "w") as f:
+            json.dump({sig: dict(count=len(vs), what=vs[0]["what"][:300], variant=vs[0].get("variant")) for sig, vs in bysig.items()},
+                      f, indent=1, sort_keys=True)
     for i, (sig, vs) in enumerate(sorted(bysig.items())):
         if i >= 25:
             lines.append("  ... and %d more violation signatures (not written)" % (len(bysig) - 25))
